@@ -441,6 +441,9 @@ func c17Embedded(r *rand.Rand, idx int, format int) Case {
 		init["data"].(map[string]any)[item] = b.String()
 		openFn = func() (k8s.Document, error) { return k8s.YamlDoc(file, item) }
 	case 1:
+		start["nel"] = "next\u0085line"
+		start["del"] = "a\x7fb"
+		start["slash"] = "a/b \\ c"
 		var b bytes.Buffer
 		_ = dom.DefaultJsonEncoder(&b, start)
 		init["data"].(map[string]any)[item] = b.String()
@@ -448,7 +451,7 @@ func c17Embedded(r *rand.Rand, idx int, format int) Case {
 	default:
 		// properties: every string item of the manifest is a key of the embedded document
 		init["data"] = map[string]any{"app.name": "n", "app.port": "80", "db.host": "h",
-			"app.rules[0].match": "m0", "app.rules[0].act": "allow", "app.rules[1].match": "m1"}
+			"app.rules[0].match": "m0", "app.rules[0].act": "allow", "app.rules[1].match": "m1", "offsets[-1]": "neg", "ports[+1]": "pos"}
 		openFn = func() (k8s.Document, error) { return k8s.Properties(file) }
 		if r.Intn(2) == 0 { // one decoder/encoder pair serving every manifest this process opens
 			openFn = func() (k8s.Document, error) {
@@ -473,7 +476,7 @@ func c17Embedded(r *rand.Rand, idx int, format int) Case {
 		if format == 2 {
 			// what was opened is this manifest's items and nothing else (nothing left over from another manifest)
 			if got := nodeToAny(cb); !reflect.DeepEqual(got, any(map[string]any{"app": map[string]any{"name": "n", "port": "80",
-				"rules": []any{map[string]any{"match": "m0", "act": "allow"}, map[string]any{"match": "m1"}}}, "db": map[string]any{"host": "h"}})) {
+				"rules": []any{map[string]any{"match": "m0", "act": "allow"}, map[string]any{"match": "m1"}}}, "db": map[string]any{"host": "h"}, "offsets[-1]": "neg", "ports[+1]": "pos"})) {
 				fail = append(fail, fmt.Sprintf("the properties document opened from the manifest is not the tree of its items: %v", got))
 			}
 		}
